@@ -5,9 +5,10 @@ A term is a nested list / tuple  [kind, arg...]:
 
   leaves   ["char", c]  ["inset", chars]  ["string", chars, min]  ["lit", text, ignore_case]
            ["litv", text, value]  ["any"]  ["eof"]
-  unary    ["many", x, lower]  ["opt", x, default]  ["map", x]  ["mapbt", x]  ["wrap", x]  ["mark", x]
+  unary    ["many", x, lower]  ["opt", x, default]  ["map", x]  ["mapbt", x]  ["lift1bt", x]  ["wrap", x]
+           ["mark", x]  ["named", x]  ["debug", x]  ["twice", x]  ["retry", x]
   binary   ["seq", x, y]  ["alt", x, y]  ["kl", x, y]  ["kr", x, y]  ["fb", x, y]  ["nfb", x, y]
-           ["until", x, y]  ["lift", x, y]  ["sepby", x, y]  ["rec", x, y]
+           ["until", x, y]  ["lift", x, y]  ["liftbt", x, y]  ["sepby", x, y]  ["rec", x, y]
 
 Meaning (s = input string, i = position; a result is FAIL or (end, value)):
 
@@ -19,11 +20,19 @@ Meaning (s = input string, i = position; a result is FAIL or (end, value)):
   many    greedy repetition, FAIL when fewer than `lower` matches
   until   repeat x until y would succeed or x fails; y consumes nothing; never fails
   opt     x, or (i, default) when x fails
-  map     value ("m", v);  mapbt  value ("g", v) unless the total function G backtracks -> FAIL
-  wrap    identity;  mark  value ("mark", line, col, v) of the start position (single-line inputs: line 1)
-  lift    x then y, value ("L", vx, vy)
-  sepby   x.sep_by(y) = instances of x separated by y, by its definition  Opt(x) then Many(y >> x);
-          value = list of the values of the matched instances of x
+  map     value F_total(v) - a total function whose image contains None, 0 and "" besides ("m", v)
+  mapbt   value ("g", v) unless the function backtracks (odd length of the matched text) -> FAIL
+  lift    x then y, value F_lift(vx, vy) (image contains None and [])
+  lift1bt / liftbt   Lift with one / two arguments whose function raises Backtrack (odd length of the
+          matched text) -> FAIL, otherwise value ("h", v) / ("H", vx, vy)
+  wrap    identity;  mark  value ("mark", line, col, v) of the start position (1-based; a new line
+          starts after each "\n")
+  named / debug   x % "name" and x.debug(): identity
+  twice   the SAME parser object used twice: Lift(F_lift) * p * p   = lift(x, x)
+  retry   the SAME parser object in two alternatives: (p << EOF) | p   = x in position and value
+  sepby   x.sep_by(y) = "zero or more instances of x separated by instances of y" (its docstring):
+          x (y x)* or nothing; value = list of the values of the matched instances of x.  A separator
+          that is not preceded by an instance is NOT part of the match.
   rec     F where F <= (x + F) | y        (one self-recursive shape through Forward)
 
 Quantifier of the property: "repetition only over consuming sub-terms".  Whenever a repetition
@@ -42,11 +51,10 @@ class Loop(Exception):
 
 LOOP = ("<loop>",)
 
-# sep_by value modes. STRICT is the reference meaning. The two other modes exist only to
-# *attribute* an observed divergence (they never decide that something is a violation):
-#   DROP_NONE   the first instance is left out when its value is None
-#   DROP_FALSY  the first instance is left out when its value is falsy
-STRICT, DROP_NONE, DROP_FALSY = 0, 1, 2
+# sep_by modes. STRICT is the reference meaning. LEADING_SEP exists only to *attribute* an observed
+# divergence (it never decides that something is a violation): the definitional expansion
+# Opt(x) then Many(y >> x), which also consumes "y x" when no first instance matched.
+STRICT, LEADING_SEP = 0, 1
 
 
 def flat(v):
@@ -67,10 +75,46 @@ def G_backtracks(v):
     return len(flat(v)) % 2 == 1
 
 
+def F_total(v):
+    """The total function behind `map`; falsy results on purpose."""
+    t = flat(v)
+    if t == "":
+        return None
+    if t == "a":
+        return 0
+    if t == "b":
+        return ""
+    return ("m", v)
+
+
+def F_lift(a, b):
+    """The total function behind `lift` / `twice`."""
+    t = flat(a) + flat(b)
+    if t == "":
+        return None
+    if t == "a":
+        return []
+    return ("L", a, b)
+
+
+def H2_backtracks(a, b):
+    return (len(flat(a)) + len(flat(b))) % 2 == 1
+
+
+def line_col(s, i):
+    """1-based line and column of position i; a line ends with its "\n"."""
+    line = 1
+    start = 0
+    for j in range(i):
+        if s[j] == "\n":
+            line += 1
+            start = j + 1
+    return line, i - start + 1
+
+
 class Stats(object):
-    absorbed = 0        # failures absorbed by alt / opt / many / until / nfb / sepby / rec in the last ev() call
-    sep_first_none = 0  # sepby whose first instance matched with value None
-    sep_first_falsy = 0  # sepby whose first instance matched with a falsy value that is not None
+    absorbed = 0        # failures absorbed by alt / opt / many / until / nfb / sepby / rec in the last evaluate()
+    sep_leading = 0     # sepby without a first instance at a position where "separator, instance" would match
 
 
 # ---------------------------------------------------------------------------------------------
@@ -174,43 +218,53 @@ def ev(t, s, i, mode=STRICT, st=Stats):
         return (i, vals)
     if k == "map":
         r = ev(t[1], s, i, mode, st)
-        return (r[0], ("m", r[1])) if r is not FAIL else FAIL
+        return (r[0], F_total(r[1])) if r is not FAIL else FAIL
     if k == "mapbt":
         r = ev(t[1], s, i, mode, st)
         if r is FAIL or G_backtracks(r[1]):
             return FAIL
         return (r[0], ("g", r[1]))
-    if k == "wrap":
+    if k == "lift1bt":
+        r = ev(t[1], s, i, mode, st)
+        if r is FAIL or G_backtracks(r[1]):
+            return FAIL
+        return (r[0], ("h", r[1]))
+    if k == "wrap" or k == "named" or k == "debug":
         return ev(t[1], s, i, mode, st)
     if k == "mark":
         r = ev(t[1], s, i, mode, st)
-        return (r[0], ("mark", 1, i + 1, r[1])) if r is not FAIL else FAIL
-    if k == "lift":
+        if r is FAIL:
+            return FAIL
+        line, col = line_col(s, i)
+        return (r[0], ("mark", line, col, r[1]))
+    if k == "retry":
+        r = ev(t[1], s, i, mode, st)
+        if r is not FAIL and r[0] != n:
+            st.absorbed += 1            # (x << EOF) failed after x matched; x is tried again from i
+        return r
+    if k == "lift" or k == "liftbt" or k == "twice":
         r = ev(t[1], s, i, mode, st)
         if r is FAIL:
             return FAIL
-        r2 = ev(t[2], s, r[0], mode, st)
+        r2 = ev(t[1] if k == "twice" else t[2], s, r[0], mode, st)
         if r2 is FAIL:
             return FAIL
-        return (r2[0], ("L", r[1], r2[1]))
+        if k == "liftbt":
+            return FAIL if H2_backtracks(r[1], r2[1]) else (r2[0], ("H", r[1], r2[1]))
+        return (r2[0], F_lift(r[1], r2[1]))
     if k == "sepby":
+        start = i
         r = ev(t[1], s, i, mode, st)
         if r is FAIL:
             st.absorbed += 1
             vals = []
         else:
             i = r[0]
-            v = r[1]
-            vals = [v]
-            if v is None:
-                st.sep_first_none += 1
-                if mode != STRICT:
-                    vals = []
-            elif not v:
-                st.sep_first_falsy += 1
-                if mode == DROP_FALSY:
-                    vals = []
+            vals = [r[1]]
+        rounds = 0
         while True:
+            # without a first instance the reference still walks through what the definitional
+            # expansion Many(y >> x) would try, so that the LOOP quantifier stays aligned with the code
             r1 = ev(t[2], s, i, mode, st)
             if r1 is FAIL:
                 st.absorbed += 1
@@ -223,6 +277,11 @@ def ev(t, s, i, mode=STRICT, st=Stats):
                 raise Loop()
             i = r2[0]
             vals.append(r2[1])
+            rounds += 1
+        if r is FAIL and rounds:
+            st.sep_leading += 1
+            if mode == STRICT:
+                return (start, [])       # a separator not preceded by an instance is not part of the match
         return (i, vals)
     if k == "rec":
         r = ev(t[1], s, i, mode, st)
@@ -240,8 +299,7 @@ def ev(t, s, i, mode=STRICT, st=Stats):
 def evaluate(t, s, mode=STRICT):
     """-> LOOP | FAIL | (end, value); Stats holds the counters of this evaluation afterwards."""
     Stats.absorbed = 0
-    Stats.sep_first_none = 0
-    Stats.sep_first_falsy = 0
+    Stats.sep_leading = 0
     try:
         r = ev(t, s, 0, mode)
     except Loop:
@@ -314,12 +372,12 @@ def tabular(t, s):
             elif k == "litv":
                 if s.startswith(nd[1], pos):
                     res = (pos + len(nd[1]), nd[2])
-            elif k in ("seq", "kl", "kr", "lift", "fb", "nfb"):
+            elif k in ("seq", "kl", "kr", "lift", "liftbt", "twice", "fb", "nfb"):
                 a = sub(nd, 1)[pos]
                 if a is LOOP:
                     res = LOOP
                 elif a is not FAIL:
-                    b = sub(nd, 2)[a[0]]
+                    b = sub(nd, 1 if k == "twice" else 2)[a[0]]
                     if b is LOOP:
                         res = LOOP
                     elif k == "fb":
@@ -333,26 +391,30 @@ def tabular(t, s):
                             res = (b[0], a[1])
                         elif k == "kr":
                             res = b
+                        elif k == "liftbt":
+                            if (len(flat([a[1], b[1]])) & 1) == 0:
+                                res = (b[0], ("H", a[1], b[1]))
                         else:
-                            res = (b[0], ("L", a[1], b[1]))
+                            res = (b[0], F_lift(a[1], b[1]))
             elif k == "alt":
                 a = sub(nd, 1)[pos]
                 res = a if a is not FAIL else sub(nd, 2)[pos]
             elif k == "opt":
                 a = sub(nd, 1)[pos]
                 res = a if a is not FAIL else (pos, nd[2])
-            elif k in ("map", "mapbt", "wrap", "mark"):
+            elif k in ("map", "mapbt", "lift1bt", "wrap", "named", "debug", "retry", "mark"):
                 a = sub(nd, 1)[pos]
                 if a is LOOP or a is FAIL:
                     res = a
                 elif k == "map":
-                    res = (a[0], ("m", a[1]))
-                elif k == "mapbt":
-                    res = FAIL if G_backtracks(a[1]) else (a[0], ("g", a[1]))
-                elif k == "wrap":
-                    res = a
+                    res = (a[0], F_total(a[1]))
+                elif k == "mapbt" or k == "lift1bt":
+                    res = FAIL if G_backtracks(a[1]) else (a[0], ("g" if k == "mapbt" else "h", a[1]))
+                elif k == "mark":
+                    before = s[:pos]
+                    res = (a[0], ("mark", before.count("\n") + 1, pos - (before.rfind("\n") + 1) + 1, a[1]))
                 else:
-                    res = (a[0], ("mark", 1, pos + 1, a[1]))
+                    res = a             # wrap, named, debug; retry = (x << EOF) | x gives x's result either way
             elif k == "many":
                 # R = x R / eps ; many = R with at least `lower` items
                 a = sub(nd, 1)[pos]
@@ -408,7 +470,7 @@ def tabular(t, s):
                 if first is LOOP:
                     res = LOOP
                 elif first is FAIL:
-                    res = r
+                    res = LOOP if r is LOOP else (pos, [])     # no instance: nothing is matched
                 else:
                     rest = tail[idx][first[0]]
                     res = LOOP if rest is LOOP else (rest[0], [first[1]] + rest[1])
